@@ -317,6 +317,14 @@ func Leaves(v ssa.Value, opts SliceOpts) []ssa.Value {
 			visit(x.X, depth)
 		case *ssa.Lookup:
 			visit(x.X, depth)
+			// contents of a map built in this function: the values stored into it
+			if mm, ok := x.X.(*ssa.MakeMap); ok && mm.Referrers() != nil {
+				for _, rr := range *mm.Referrers() {
+					if mu, ok := rr.(*ssa.MapUpdate); ok && mu.Map == ssa.Value(mm) {
+						visit(mu.Value, depth)
+					}
+				}
+			}
 		case *ssa.Slice:
 			visit(x.X, depth)
 		case *ssa.Convert:
